@@ -110,6 +110,7 @@ type Sim struct {
 	querySubj        map[string]string
 	Refetches        []*RefetchRec
 	quietReset       *ResetRec
+	quietRoot        *CReq
 	pendingAcc       []pendingAccess
 	connGone         map[int]int
 	tokenResetSubj   map[string]bool
